@@ -242,6 +242,11 @@ func (o *OvsdbServer) Monitor(client *rpc2.Client, args []json.RawMessage, reply
 	if err := json.Unmarshal(args[2], &request); err != nil {
 		return err
 	}
+	// the initial contents are read from the committed database: a monitor
+	// must not be registered while a transaction is between notifying the
+	// monitors and being committed, or it would never learn of it
+	o.txnMutex.Lock()
+	defer o.txnMutex.Unlock()
 	o.monitorMutex.Lock()
 	defer o.monitorMutex.Unlock()
 	clientMonitors, ok := o.monitors[client]
@@ -295,6 +300,11 @@ func (o *OvsdbServer) MonitorCond(client *rpc2.Client, args []json.RawMessage, r
 	if err := json.Unmarshal(args[2], &request); err != nil {
 		return err
 	}
+	// the initial contents are read from the committed database: a monitor
+	// must not be registered while a transaction is between notifying the
+	// monitors and being committed, or it would never learn of it
+	o.txnMutex.Lock()
+	defer o.txnMutex.Unlock()
 	o.monitorMutex.Lock()
 	defer o.monitorMutex.Unlock()
 	clientMonitors, ok := o.monitors[client]
@@ -341,6 +351,11 @@ func (o *OvsdbServer) MonitorCondSince(client *rpc2.Client, args []json.RawMessa
 	if err := json.Unmarshal(args[2], &request); err != nil {
 		return err
 	}
+	// the initial contents are read from the committed database: a monitor
+	// must not be registered while a transaction is between notifying the
+	// monitors and being committed, or it would never learn of it
+	o.txnMutex.Lock()
+	defer o.txnMutex.Unlock()
 	o.monitorMutex.Lock()
 	defer o.monitorMutex.Unlock()
 	clientMonitors, ok := o.monitors[client]
